@@ -628,12 +628,18 @@ class Representation:
             matrix = utils.change_base_ring(matrix, base_ring)
             self._base_ring = base_ring
 
+        first_generator = len(self.generators) == 0
+
         self.generators[generator] = matrix
         if compute_inverse:
             self.generators[self.invert_gen(generator)] = utils.invert(matrix)
 
-        # always update the dtype (we don't have a hierarchy for this)
-        self._dtype = matrix.dtype
+        # the dtype of the representation is the common type of the
+        # matrices assigned so far
+        if first_generator:
+            self._dtype = matrix.dtype
+        else:
+            self._dtype = np.result_type(self._dtype, matrix.dtype)
 
     def set_generator(self, generator, matrix, **kwargs):
         self._set_generator(generator,
